@@ -27,6 +27,7 @@ type UnitResult struct {
 	States      int
 	Transitions int
 	Validated   int
+	Audited     int
 	Evaluations int
 	Distinct    map[string]bool // distinct non-trivial outcome classes hit
 	DepthDone   int
@@ -41,7 +42,7 @@ type UnitResult struct {
 
 // FromE1 converts an E1 result.
 func FromE1(r Result) UnitResult {
-	u := UnitResult{Unit: r.Scenario, Evaluations: r.Evaluations, States: r.States, Transitions: r.Transitions, Validated: r.Validated,
+	u := UnitResult{Unit: r.Scenario, Audited: r.Audited, Evaluations: r.Evaluations, States: r.States, Transitions: r.Transitions, Validated: r.Validated,
 		DepthDone: r.DepthDone, Exhaustive: r.Exhaustive, CapHit: r.CapHit, Violations: r.Violations, Cover: r.Cover,
 		Vacuous: r.Vacuous, WallS: r.WallS, Distinct: map[string]bool{}}
 	for _, s := range r.Samples {
@@ -183,7 +184,7 @@ var unsafeChars = regexp.MustCompile(`[^A-Za-z0-9_.-]+`)
 func Finish(p *Property, tier string, seed int, results []UnitResult, root string, wall float64) int {
 	findings := LoadFindings(filepath.Join(root, "known_findings.json"))
 	cov := map[string]interface{}{}
-	var states, trans, valid, evals int
+	var states, trans, valid, evals, audited int
 	distinct := map[string]bool{}
 	exhaustive := true
 	var caps []string
@@ -196,6 +197,7 @@ func Finish(p *Property, tier string, seed int, results []UnitResult, root strin
 		states += r.States
 		trans += r.Transitions
 		valid += r.Validated
+		audited += r.Audited
 		evals += r.Evaluations
 		for k := range r.Distinct {
 			distinct[k] = true
@@ -238,6 +240,9 @@ func Finish(p *Property, tier string, seed int, results []UnitResult, root strin
 			cov["traces_validated_against_impl"] = valid
 		}
 	}
+	if audited > 0 {
+		cov["canonical_key_collisions_audited"] = audited
+	}
 	cov["rule"] = p.Rule
 	cov["samples"] = samples
 	cov["exhaustive"] = exhaustive
@@ -259,6 +264,7 @@ func Finish(p *Property, tier string, seed int, results []UnitResult, root strin
 		}
 	}
 	exit := 0
+	harnessFailed := false
 	nViol := 0
 	sigDone := map[string]bool{}
 	os.MkdirAll(filepath.Join(root, "replays"), 0o755)
@@ -269,6 +275,11 @@ func Finish(p *Property, tier string, seed int, results []UnitResult, root strin
 			continue
 		}
 		sigDone[key] = true
+		if strings.HasPrefix(v.Rule, "harness/") {
+			fmt.Printf("HARNESS-FAILURE property=%s %s: %s (unit %s; trace: %s)\n", p.ID, v.Sig(), firstLine(v.Detail), v.Scen, strings.Join(v.Path, " ; "))
+			harnessFailed = true
+			continue
+		}
 		if f := matchKnown(findings, p.ID, v); f != nil {
 			line := fmt.Sprintf("KNOWN-FINDING: property=%s %s [%s]", p.ID, f.What, v.Sig())
 			if !sigDone[line] {
@@ -292,6 +303,9 @@ func Finish(p *Property, tier string, seed int, results []UnitResult, root strin
 	}
 	if len(known) > 0 {
 		cov["known_findings_seen"] = known
+	}
+	if harnessFailed && exit == 0 {
+		exit = 2
 	}
 	ev := map[string]interface{}{
 		"property_id": p.ID, "tier": tier, "seed": seed, "level": p.Level, "coverage": cov,
